@@ -163,7 +163,7 @@ def run(pid, tier, seed):
     cfg, module = MC[pid][tier]
     mc = engine_check.model_check(cfg, module, timeout=900 if tier == "quick" else 7200)
     if mc["violated"]:
-        tr = os.path.join(vlib.ROOT, "replay", pid); os.makedirs(tr, exist_ok=True)
+        tr = os.path.join(vlib.REPLAY, pid); os.makedirs(tr, exist_ok=True)
         p = os.path.join(tr, "tlc-counterexample-%s.txt" % tier); open(p, "w").write(mc["out"][-200000:])
         violations.append(dict(replay=p, what="TLC: invariant %s violated in the specification (%s)" % (mc["violated"], cfg), fingerprint=None))
     log("[%s] model checking %s: %s distinct states, %s generated, depth %s, %.0fs" % (pid, cfg, mc["distinct"], mc["states"], mc["depth"], mc["wall"]))
